@@ -48,7 +48,7 @@ def run(R):
     # designed partitions: a middle piece that starts mid-block, crosses the end of a 64-byte keystream block and ends mid-block (10+70+34, 33+64+17, ...),
     # AAD and data pieces of 16 bytes and more arriving while 1..15 bytes are staged in the MAC
     for j, (rounds, kl, aparts, dparts) in enumerate([(20, 32, [7, 43], [10, 70, 34]), (20, 16, [16, 1, 20], [33, 64, 17]), (12, 32, [3], [5, 128, 6, 70]), (8, 16, [15, 17], [1, 63, 65, 2]),
-                                                      (20, 32, [], [60, 8, 130])]):
+                                                      (20, 32, [], [60, 8, 130]), (20, 32, [0, 5], [0, 50, 64]), (20, 16, [9], [10, 10, 44, 0, 64])]):
         tag = "designed/%d" % j
         key, nonce = vlib.prng_bytes(R.seed, "c06key/" + tag, kl), vlib.prng_bytes(R.seed, "c06nonce/" + tag, 12)
         aad, pt = vlib.prng_bytes(R.seed, "c06aad/" + tag, sum(aparts)), vlib.prng_bytes(R.seed, "c06pt/" + tag, sum(dparts))
